@@ -3,6 +3,7 @@ from engine import *
 import ordimpls
 import re
 import provenance
+import accessors
 import tlv, os
 
 OF = 'lightning::offers::'
@@ -588,3 +589,4 @@ RULES = [
 	('18.o', 'hand-written eq / cmp / partial_cmp / hash impls in this property\'s files: same field on both sides, reviewed direction, no reviewed key lost, hash within eq (rules/ordimpls.py)', lambda F: ordimpls.for_property(F, 'C18', '18.o')),
 ]
 RULES.append(('18.P', 'panic sites: no reviewed function that parses / handles untrusted input gained an unwrap / expect / explicit panic / bounds-checked index / length-checked copy / division (rules/provenance.py; panic freedom itself is not decided)', lambda F: provenance.panics_for_property(F, 'C18', '18.P')))
+RULES.append(('18.A', 'enum accessors agree across sibling variants: an accessor that returns the payload field `x` for one variant returns it for every variant whose payload carries a field of that name and type (a variant moved to the `=> None` arm) - rules/accessors.py', lambda F: accessors.for_property(F, 'C18', '18.A')))
